@@ -89,6 +89,11 @@ Orphaned(c) == att[c].st = "cancelled" /\ att[c].accd /\ ~tainted[c]
 
 Explicit(a, b) == a # b /\ a \in Hosts /\ b \in Hosts /\ expl[<<a, b>>]
 
+\* A connector on the listener's own host (by its address or through 127.0.0.1 / ::1) reaches it
+\* without a link: the test cannot see the request arrive (nothing shows in Sim::links), so the
+\* clauses that need the arrival (refusal case (a), accept order) are not asserted for it.
+SameHost(a) == a.h = a.dh
+
 \* does a listener bound with `kind` take a request of this attempt?
 \* ("lo" = bound to 127.0.0.1 / ::1: only requests addressed to the loopback address)
 Match(kind, a) == kind = "any" \/ a.lo
@@ -185,7 +190,7 @@ P_Poll(c, res, local, peer) ==
                      Flag(~a.accd, "RefusedThoughAccepted")
                      \* clause SpuriousRefusal: a request that reached a bound, matching listener which stays
                      \* bound, over a direction that is not partitioned, to an address a host owns, is not refused
-                     \cup Flag(a.must, "SpuriousRefusal")
+                     \cup Flag(a.must \/ SameHost(a), "SpuriousRefusal")
                [] res = "pending" ->
                      \* clause Hang: refused "instead of hanging"; an accepted connect completes
                      Flag(~a.accd /\ ~(a.must /\ a.late), "Hang")
@@ -215,7 +220,7 @@ P_Accept(h, p, c, local, peer) ==
     /\ LET q == lsn[<<h, p>>].arr IN
        bad' = bad \cup
             \* clause PhantomAccept: one accepted stream per request that arrived at this listener
-            Flag(InSeq(q, c) /\ ~att[c].accd, "PhantomAccept")
+            Flag((InSeq(q, c) \/ SameHost(att[c])) /\ ~att[c].accd, "PhantomAccept")
             \* clause AcceptedDead: "a connector that gave up is skipped"
             \cup Flag(~GaveUp(c), "AcceptedDead")
             \* clause AcceptOrder: "requests are accepted in the order they arrived"
